@@ -108,6 +108,10 @@ func EndBlocker(ctx sdk.Context, k keeper.Keeper) {
 						sdk.NewAttribute(types.AttributeKeyConsumer, requestContext.Consumer),
 					),
 				})
+				// the batch cannot be priced: skip it like a batch without eligible providers, so that its entry
+				// leaves the new batch queue and the context keeps its schedule instead of being stuck
+				k.SkipCurrentRequestBatch(ctx, requestContextID, *requestContext)
+				k.DeleteNewRequestBatch(ctx, requestContextID, ctx.BlockHeight())
 				return
 			}
 
